@@ -135,7 +135,7 @@ using namespace opensmt::tokens;
 ":all-statistics"            { yyget_lval(yyscanner)->str = strdup( yyget_text(yyscanner) ); return KW_ALLSTATISTICS;           }
 
 
-0|-?[1-9][0-9]*(\/[1-9][0-9]*)?  { yyget_lval(yyscanner)->str = strdup( yyget_text(yyscanner) ); return TK_NUM; }
+-?[0-9]+(\/[0-9]*[1-9][0-9]*)?  { yyget_lval(yyscanner)->str = strdup( yyget_text(yyscanner) ); return TK_NUM; } // leading zeros do not end the numeral
 -?[0-9]+\.0*[0-9]+             { yyget_lval(yyscanner)->str = strdup( yyget_text(yyscanner) ); return TK_DEC; }
 #x[0-9a-fA-F]+               { yyget_lval(yyscanner)->str = strdup( yyget_text(yyscanner) ); return TK_HEX; }
 #b[01]+                      { yyget_lval(yyscanner)->str = strdup( yyget_text(yyscanner) ); return TK_BIN; }
